@@ -101,13 +101,22 @@ impl NetworkAddress {
         }
     }
 
-    /// Decode four-word format to NetworkAddress using four-word-networking
-    pub fn from_four_words(words: &str) -> Result<Self> {
+    /// Decode a four-word string to a socket address.
+    fn decode_four_words(words: &str) -> Result<SocketAddr> {
         let enc = FourWordAdaptiveEncoder::new()?;
         let normalized = words.replace('-', " ");
-        let decoded = enc.decode(&normalized)?; // returns a normalized address string
-        let socket_addr: SocketAddr = decoded.parse()?; // must include port
-        Ok(Self::new(socket_addr))
+        // The decoder slices fixed-size buffers with lengths taken from its input and
+        // panics on some word sequences it did not produce itself; a malformed address
+        // string must be an error, not a panic.
+        let decoded =
+            std::panic::catch_unwind(std::panic::AssertUnwindSafe(|| enc.decode(&normalized)))
+                .map_err(|_| anyhow!("Invalid four-word address: {}", words))??;
+        Ok(decoded.parse()?) // must include port
+    }
+
+    /// Decode four-word format to NetworkAddress using four-word-networking
+    pub fn from_four_words(words: &str) -> Result<Self> {
+        Ok(Self::new(Self::decode_four_words(words)?))
     }
 
     /// Check if this is an IPv4 address
